@@ -3,9 +3,20 @@
   One line per model; each model's entries live in Driver/Entries/<Model>.lean.
 -/
 import UnifexModel.Driver.Entry
-import UnifexModel.Driver.Entries.StopSource
+import UnifexModel.Driver.Entries.AnyObj
+import UnifexModel.Driver.Entries.AsyncStack
+import UnifexModel.Driver.Entries.Bulk
 import UnifexModel.Driver.Entries.Calc
+import UnifexModel.Driver.Entries.Cancel
+import UnifexModel.Driver.Entries.Coro
+import UnifexModel.Driver.Entries.Ctx
+import UnifexModel.Driver.Entries.Event
+import UnifexModel.Driver.Entries.Mutex
+import UnifexModel.Driver.Entries.Scope
+import UnifexModel.Driver.Entries.SpawnFuture
+import UnifexModel.Driver.Entries.StopSource
 import UnifexModel.Driver.Entries.Stream
+import UnifexModel.Driver.Entries.Timer
 
 namespace Unifex.Driver
 
@@ -13,6 +24,31 @@ def table : List ModelEntries :=
   [ Entries.stopsource
   , Entries.calcEntries
   , Entries.streamEntries
+  , Entries.clock
+  , Entries.timerqueue
+  , Entries.timerop
+  , Entries.scopev2
+  , Entries.scopev1
+  , Entries.scopev0
+  , Entries.bulk
+  , Entries.anyobjEntries
+  , Entries.ctxEntries
+  , Entries.spawnfuture
+  , Entries.coroEntries
+  , Entries.mutexv1
+  , Entries.mutexv2
+  , Entries.mutexv2fix
+  , Entries.alist
+  , Entries.cancellable
+  , Entries.cancellableafter
+  , Entries.detachoncancel
+  , Entries.canary
+  , Entries.stoponrequest
+  , Entries.asyncstackEntries
+  , Entries.eventv1
+  , Entries.autoreset
+  , Entries.eventv2
+  , Entries.asyncpass
   ]
 
 def lookup (m c : String) : Option Entry :=
